@@ -417,6 +417,41 @@ def gen_rot_case(rng, name):
             "pyseed": rng.randint(0, 1000)}
 
 
+def gen_selectn_case(rng, name):
+    """ranking scenarios: a statistic (a dated frame with NaN cells and missing dates, or the total return over a lagged
+    window) ranked by SelectN with whole or fractional n, all_or_none, on a pre-selection that is a strict subset of the
+    tickers carrying a statistic (filter_selected), then equal weights"""
+    g = BTGen(rng)
+    n = rng.randint(8, 18)
+    dates = gen_dates(rng, n)
+    nt = rng.randint(3, 6)
+    tickers = list(range(1, nt + 1))
+    prices = [[t, gen_price_col(rng, n, p_nan=0.0, late=rng.random() < 0.25)] for t in tickers]
+    g.full = {t for t, col in prices if NAN not in col}
+    first = ["selectall", False, False]
+    if rng.random() < 0.6:
+        first = ["selectthese", sorted(rng.sample(tickers, rng.randint(2, nt - 1))), False, False]
+    if rng.random() < 0.5:
+        key = g.key()
+        cols = [[t, [hx(dy(rng, -50, 50, 1) + 0.001 * t) if rng.random() > 0.15 else NAN for _ in dates]] for t in tickers]
+        idx = list(dates)
+        if rng.random() < 0.4:
+            idx = [d for d in dates if rng.random() < 0.7] or list(dates[:1])
+            cols = [[t, [c[dates.index(d)] for d in idx]] for t, c in cols]
+        g.adata.append([key, ["frame", idx, cols]])
+        stat = [["setstat", key, 0, rng.choice([0, 0, 1, 2])]]
+    else:
+        stat = [["totalreturn", 0, rng.choice([2, 3, 5, 9]), 0, rng.choice([0, 1, 2, 3])]]
+    nn = rng.choice([hx(1.0), hx(2.0), hx(3.0), hx(0.5), hx(0.5), hx(0.34), hx(0.75)])
+    sel = ["selectn", nn, rng.random() < 0.6, rng.random() < 0.2, rng.random() < 0.8]
+    st = [["runperiod", rng.choice(["daily", "daily", "weekly"]), True, False, False], first] + stat + [sel, ["weighequally"], ["rebalance"]]
+    kids = [["sec", t, "sec", False, hx(1.0), "str"] for t in tickers] if rng.random() < 0.5 else []
+    return {"name": name, "dates": dates, "intpos": rng.random() < 0.4, "comm": rng.choice([["none"], ["none"], ["prop", hx(0.001953125)]]),
+            "prices": prices, "bidoffer": None, "coupons": None, "cost_long": None, "cost_short": None, "adata": g.adata,
+            "capital": hx(float(rng.choice([100000, 1000000]))), "tree": ["strat", nt + 5, False, kids, st],
+            "pyseed": rng.randint(0, 1000)}
+
+
 def gen_case(rng, name):
     r0 = rng.random()
     if r0 < 0.2:
@@ -427,6 +462,8 @@ def gen_case(rng, name):
         return gen_limit_deltas_case(rng, name)
     if r0 < 0.35:
         return gen_rot_case(rng, name)
+    if r0 < 0.40:
+        return gen_selectn_case(rng, name)
     g = BTGen(rng)
     n = rng.randint(6, 24)
     dates = gen_dates(rng, n)
